@@ -45,14 +45,14 @@ type logical struct {
 }
 
 var goodCrons = []string{"* * * * *", "*/5 * * * *", "0 0 * * 1", "15 3 1 1 *"}
-var badCrons = []string{"", "x", "* * *", "61 * * * *", "TZ=UTC", "CRON_TZ=UTC", "@every"}
+var badCrons = []string{"", "x", "* * *", "61 * * * *", "TZ=UTC", "CRON_TZ=UTC", "@every", "TZ=UTC ", "CRON_TZ=UTC \n", "TZ= ", "TZ=UTC\t* * * * *", "TZ=UTC\t@daily", "TZ=UTC\n@hourly", "TZ=UTC\u00a0@daily"}
 
 func genLogical(r *rng) []logical {
 	req := func() string { // a field the HTTP binding calls `required`
 		if r.chance(0.1) {
 			return ""
 		}
-		return pick(r, []string{"x", "p1", "a/b", "foo.bar", "id-7"})
+		return pick(r, []string{"x", "p1", "a/b", "foo.bar", "id-7", " worker-7\n", "x ", "\tq"})
 	}
 	// ids that travel in the URL path: the client percent-encodes them (escPath), the kernel must see them unaltered
 	pathId := func() string {
@@ -140,7 +140,7 @@ func genLogical(r *rng) []logical {
 				state    int
 				tags     map[string]string
 				limit    int
-			}{promises, pick(r, []string{"*", "a*", "x", "*", ""}), pick(r, []int{0, 1, 2, 3, 0, 7}), smap(), pick(r, []int{0, 1, 50, 100, 101, -1})}
+			}{promises, pick(r, []string{"*", "a*", "x", "*", "", " job/*", "* ", " ", "a b*", "A*", "\ta"}), pick(r, []int{0, 1, 2, 3, 0, 7}), smap(), pick(r, []int{0, 1, 50, 100, 101, -1})}
 			if !promises {
 				s.state = 0
 			}
